@@ -84,6 +84,14 @@ def all_cells():
                         if order != "std" and cls not in ("app", "logon", "hb"):
                             continue
                         cells.append(("B", role, st, cls, d, order))
+    # B'': a too-low number on a frame marked as a possible duplicate: the session may shrug it off or disconnect, but the application
+    # never sees it and the inbound numbering does not move
+    for role in ("acceptor", "initiator"):
+        for st in ("active", "awaiting"):
+            for cls in ("app", "exec", "custom", "hb", "tr", "logout"):
+                for back in (1, 2, "one"):
+                    for order in ("std", "seq-first"):
+                        cells.append(("B-lowdup", role, st, cls, back, order))
     # B': the Logout that states the reason cannot be written (the peer is already gone): the connection must still end disconnected
     for role in ("acceptor", "initiator"):
         for st in ("active", "awaiting"):
@@ -397,6 +405,38 @@ async def cell_B(acc, clock, cell, cid):
     await continuation(acc, clock, ep, j, peer, cid, w, f"B/{d}", same_read=(fr, cell))
 
 
+async def cell_B_lowdup(acc, clock, cell, cid):
+    from vf.sim.net import settle
+    _, role, st, cls, back, order = cell
+    b = await build(clock, role, st)
+    if b is None:
+        acc.add("start_state_not_reached")
+        return
+    ep, j, peer = b
+    o = Obs(ep, j)
+    E_ = o.live_in
+    seq = 1 if back == "one" else E_ - back
+    if seq < 1 or seq >= E_:
+        return
+    mt, body = body_for(cls, seq)
+    fr = mkframe(mt, seq, "PEER", "ME", body, True, order)
+    ep.vf_reader.feed(fr)
+    await settle()
+    n = Obs(ep, j)
+    acc.oracle("B:too-low-possdup-never-delivered")
+    w = {"cell": cell, "frame": fixwire.show(fr), "events": ep.ev[o.ev:], "tap": [fixwire.show(x)[:120] for x in ep.vf_tap.frames(o.tap)],
+         "state": [o.state.name, n.state.name], "in": [o.live_in, n.live_in, o.st_in, n.st_in], "delivered": [list(map(str, r))[:3] for r in ep.rx[o.rx:]]}
+    stname = {"active": "active", "awaiting": "awaiting-resend"}[st]
+    if n.rx != o.rx:
+        return acc.violation(f"seq-too-low-possdup:{stname}:delivered", f"{cls} numbered {seq} (expected {E_}) with PossDupFlag=Y handed to on_message", w, cid)
+    if (n.live_in, n.st_in) != (o.live_in, o.st_in):
+        return acc.violation(f"seq-too-low-possdup:{stname}:inbound-counter-moved", f"live {o.live_in}->{n.live_in} stored {o.st_in}->{n.st_in}", w, cid)
+    if cls != "logout" and any(e[0] in ("logon", "logout") for e in ep.ev[o.ev:]):
+        return acc.violation(f"seq-too-low-possdup:{stname}:session-callback", f"callbacks {ep.ev[o.ev:]}", w, cid)
+    if n.disc not in (o.disc, o.disc + 1):
+        return acc.violation(f"seq-too-low-possdup:{stname}:on_disconnect-count", f"on_disconnect called {n.disc - o.disc} times", w, cid)
+
+
 async def cell_B_drainfail(acc, clock, cell, cid):
     from asyncfix.connection import ConnectionState as CS
     from vf.sim.net import settle, advance
@@ -667,6 +707,8 @@ def run_shard(spec, acc):
                     await cell_C_overlap(acc, clock, cell, cid)
                 elif cell[0] == "B-drainfail":
                     await cell_B_drainfail(acc, clock, cell, cid)
+                elif cell[0] == "B-lowdup":
+                    await cell_B_lowdup(acc, clock, cell, cid)
                 elif cell[0] == "B":
                     await cell_B(acc, clock, cell, cid)
                     if acc.want(cid):
